@@ -48,6 +48,7 @@ INPUTS = [
     {"uid": 1, "org": "a", "f": 1, "g": 3},
     {"uid": "1", "org": "b", "f": 0, "g": 0},
     {"uid": True, "org": "a", "f": 1, "g": 3},  # == 1 but prints differently (an untyped memo would merge them)
+    {"org": "a", "g": 3},  # exactly the fields of text B (an evaluator that still demands a previous text's fields fails here)
     {"uid": 1.0, "org": "a", "f": 1.0, "g": 3},
     {"uid": 2, "org": "a", "f": 1, "g": 9},
 ]
@@ -55,7 +56,7 @@ INPUTS = [
 
 def spec_for(tier):
     if tier == "quick":
-        return xlife.Spec(TEXTS, INPUTS[:4], slots=2, depth=3)
+        return xlife.Spec(TEXTS, INPUTS[:5], slots=2, depth=3)
     return xlife.Spec(TEXTS, INPUTS, slots=3, depth=4)
 
 
